@@ -579,7 +579,6 @@ pub fn replay_events(t: &Tables, input: &str, output: &str) -> Value {
 // time control: parse_go_command + calculate_time_slice through the verification wrapper
 // ---------------------------------------------------------------------------------------------
 pub fn slice_events(input: &str, output: &str) -> Value {
-    use crate::time_control::GameTime;
     use std::io::Write;
     // input: a list of go lines, or of objects {"line": .., "canon": ..} where canon is the same go without its unknown
     // tokens (the specification checks that both parse to the same values by ITS scan; the engine must then plan the same)
@@ -601,8 +600,14 @@ pub fn slice_events(input: &str, output: &str) -> Value {
             let sw = gt.calculate_time_slice(PieceColor::White);
             let sb = gt.calculate_time_slice(PieceColor::Black);
             // the same go with the OTHER side's clock / increment changed
-            let alt_w = GameTime { wtime: gt.wtime, winc: gt.winc, btime: gt.btime / 2 + 777, binc: gt.binc + 333, movestogo: gt.movestogo };
-            let alt_b = GameTime { btime: gt.btime, binc: gt.binc, wtime: gt.wtime / 2 + 777, winc: gt.winc + 333, movestogo: gt.movestogo };
+            // (built by overwriting the parsed object, not by a struct literal: a field added to GameTime must not stop
+            // this harness from compiling)
+            let mut alt_w = crate::uci::verif_parse_go_command(&etoks);
+            alt_w.btime = gt.btime / 2 + 777;
+            alt_w.binc = gt.binc + 333;
+            let mut alt_b = crate::uci::verif_parse_go_command(&etoks);
+            alt_b.wtime = gt.wtime / 2 + 777;
+            alt_b.winc = gt.winc + 333;
             (gt.wtime, gt.btime, gt.winc, gt.binc, gt.movestogo, sw, sb, alt_w.calculate_time_slice(PieceColor::White), alt_b.calculate_time_slice(PieceColor::Black))
         }));
         let ev = match r {
